@@ -204,6 +204,78 @@ pub fn expand_placement() {
     kani::cover!(seed[3] == 7, "reachable");
 }
 
+// (C) `expand_tagged`: the operands check of (A) with every addition returning
+// a distinct CONCRETE tag instead of a fresh variable, and the seed symbolic.
+// The run constant-folds except for the 16 seed-derived words, so it fits where
+// (A) does not. What it decides: for every seed, (1) the initial 16 words are
+// K K IV IV (their reads show up as operands of steps 16..31), and (2) for this
+// one assignment of distinct result values, the operands of every addition
+// are the recurrence's functions of the right earlier results - a dataflow
+// test of the recurrence (one run, not a statement over all values), labelled
+// as such in the evidence.
+static mut TG_N: usize = 0;
+static mut TG_OK: bool = true;
+static mut TG_PREV: u32 = 0;
+static mut TG_W: [u32; 16] = [0; 16];
+fn tag_of(n: usize) -> u32 {
+    0x5000_0000u32 ^ ((n as u32).wrapping_mul(0x9E37_79B1)).rotate_left(5)
+}
+#[allow(static_mut_refs)]
+fn add_tagged(a: u32, b: u32) -> u32 {
+    unsafe {
+        let r = tag_of(TG_N);
+        if TG_N < NADD {
+            let i = 16 + TG_N / 4;
+            match TG_N % 4 {
+                0 => TG_OK &= pair(a, b, crate::ref_hc128::f2(TG_W[(i - 2) % 16]), TG_W[(i - 7) % 16]),
+                1 => TG_OK &= pair(a, b, TG_PREV, crate::ref_hc128::f1(TG_W[(i - 15) % 16])),
+                2 => TG_OK &= pair(a, b, TG_PREV, TG_W[(i - 16) % 16]),
+                _ => {
+                    TG_OK &= pair(a, b, TG_PREV, i as u32);
+                    TG_W[i % 16] = r;
+                }
+            }
+            TG_PREV = r;
+        }
+        TG_N += 1;
+        r
+    }
+}
+
+#[kani::proof]
+#[kani::unwind(1300)]
+#[kani::stub(rand_hc::Hc128Core::sixteen_steps, noop_sixteen)]
+#[kani::stub(u32::wrapping_add, add_tagged)]
+pub fn expand_tagged() {
+    expand_tagged_body(kani::any(), true);
+}
+
+#[allow(static_mut_refs)]
+fn expand_tagged_body(seed: [u32; 8], symbolic: bool) {
+    let mut i = 0;
+    while i < 4 {
+        unsafe {
+            TG_W[i] = seed[i];
+            TG_W[i + 4] = seed[i];
+            TG_W[i + 8] = seed[4 + i];
+            TG_W[i + 12] = seed[4 + i];
+        }
+        i += 1;
+    }
+    let core = Hc128Core::verif_init(seed);
+    assert!(unsafe { TG_N } == NADD);
+    assert!(unsafe { TG_OK });
+    let t = core.verif_t();
+    let mut ok = true;
+    let mut k = 0;
+    while k < 1024 {
+        ok &= t[k] == tag_of(4 * (k + 256 - 16) + 3);
+        k += 1;
+    }
+    assert!(ok);
+    kani::cover!(!symbolic || seed[6] != seed[7], "IV words 2 and 3 differ");
+}
+
 fn add_fresh(_a: u32, _b: u32) -> u32 {
     kani::any()
 }
